@@ -615,6 +615,7 @@ func (rp *replayPlan) evaluate(in *concreteInput, outJSON string) (violated []st
 				val := v.toValue(p.Type(), in.scalars[i])
 				vars[p.Name()] = wrapTyped(val, p.Type())
 			}
+			vars[fmt.Sprintf("arg%d", i)] = vars[p.Name()] // positional names, as used by contracts of assembly entry points
 		}
 		return st, vars, os
 	}
@@ -820,7 +821,7 @@ func (rp *replayPlan) evaluate(in *concreteInput, outJSON string) (violated []st
 				base = lv[:i]
 			}
 			for i, p := range fn.Params {
-				if p.Name() == base {
+				if p.Name() == base || fmt.Sprintf("arg%d", i) == base {
 					if oi, ok := rp.objOf[i]; ok {
 						allowed[oi] = true
 					}
@@ -1371,6 +1372,7 @@ func replayRing(rp *replayPlan, fp *FieldParams, o *Obligation, scratch string) 
 		keys = append(keys, k)
 	}
 	sort.Ints(keys)
+	var seenRing map[string]bool
 	for _, k := range keys {
 		viol, ok, note := rp.evaluate(inputs[k], outs[k])
 		if !ok {
@@ -1378,6 +1380,25 @@ func replayRing(rp *replayPlan, fp *FieldParams, o *Obligation, scratch string) 
 				res.Log += "first input not usable: " + note + "\n"
 			}
 			continue
+		}
+		if !strings.Contains(note, "not fully concrete") {
+			res.Evaluated++
+			var ov0 []interface{}
+			for _, ob := range inputs[k].objs {
+				ov0 = append(ov0, cvalJSON(ob))
+			}
+			enc, _ := json.Marshal([]interface{}{ov0, scalarsJSON(rp, inputs[k])})
+			key := string(enc)
+			if seenRing == nil {
+				seenRing = map[string]bool{}
+			}
+			if !seenRing[key] && strings.ContainsAny(strings.NewReplacer("\"0\"", "", "0", "").Replace(key), "123456789") {
+				seenRing[key] = true
+				res.Distinct++
+				if res.Sample == nil {
+					res.Sample = map[string]interface{}{"function": rp.ctx.Fn.Name(), "partition": rp.ctx.Part.label, "setup": rp.ctx.Setup, "objects": rp.objNames, "values_montgomery_words": ov0, "outputs": outs[k]}
+				}
+			}
 		}
 		if len(viol) > 0 {
 			res.Confirmed = true
